@@ -369,8 +369,21 @@ pub fn print_text(args: &[T], s: &Sub) -> Result<String, String> {
         return Ok(texts.concat());
     }
     if markers < texts.len() - 1 {
-        // more values than markers: the statement does not say where they go
-        return Err("print: fewer %s than arguments".into());
+        // more values than markers: every marker is filled, and the values left over follow the
+        // text of the format in their order ("showing each argument's bound value": no argument
+        // may go unshown; the position after the format is the one the crate's own unit test
+        // fixes for one value left over, `"Hello, %s. ", Dave, "You're looking well today."`)
+        let mut out = String::new();
+        for (i, p) in parts.iter().enumerate() {
+            out.push_str(p);
+            if i < markers {
+                out.push_str(&texts[i + 1]);
+            }
+        }
+        for t in &texts[markers + 1..] {
+            out.push_str(t);
+        }
+        return Ok(out);
     }
     // more markers than values: every value replaces a marker and the text of the
     // format is kept; what stands for an unfilled marker is not specified (UNFILLED
